@@ -367,6 +367,13 @@ func c10Replay(i int, raw json.RawMessage, seed int) Result {
 		sets = append(sets, m.list(s))
 		all = unionInts(all, s)
 	}
+	// the specified state is a function of the set of state sets: with three sets every presentation order is run
+	orders := [][][]gmsl.PDU{sets}
+	if len(sets) == 3 {
+		for _, p := range [][3]int{{0, 2, 1}, {1, 0, 2}, {1, 2, 0}, {2, 0, 1}, {2, 1, 0}} {
+			orders = append(orders, [][]gmsl.PDU{sets[p[0]], sets[p[1]], sets[p[2]]})
+		}
+	}
 	algo := algoOf(q.Ver)
 	nt := fmt.Sprintf("%s|%s|rej=%v|res=%v", q.Ver, m.shapeKey(), q.Rejected, want)
 	// Room.tla only lets honest servers send what the rules allow on the state they resolved: every event of the
@@ -384,7 +391,7 @@ func c10Replay(i int, raw json.RawMessage, seed int) Result {
 				What: fmt.Sprintf("Room.tla sends event %d (allowed by the specification's rules on auth events %v) but the real Allowed refuses it: %v; room (version %s): %s", e.ID, e.Auth, err, q.Ver, m.describe())}
 		}
 	}
-	check := func(entry string, auth []int) *Result {
+	checkOne := func(entry string, auth []int, sets [][]gmsl.PDU) *Result {
 		var got []gmsl.PDU
 		switch entry {
 		case "ResolveConflictsNew":
@@ -401,6 +408,14 @@ func c10Replay(i int, raw json.RawMessage, seed int) Result {
 			return &Result{OK: false, NT: nt, Key: fmt.Sprintf("C10/%s/algo=%d/%s", entry, algo, m.shapeKey()), Want: want, Got: g,
 				What: fmt.Sprintf("%s (room version %s): resolved state %v, specification says %v; state sets %v; power order %v, others %v, auth difference %v, subgraph %v; room: %s",
 					entry, q.Ver, g, want, q.Sets, q.Power, q.Others, q.AuthDiff, q.Subgraph, m.describe())}
+		}
+		return nil
+	}
+	check := func(entry string, auth []int) *Result {
+		for _, o := range orders {
+			if r := checkOne(entry, auth, o); r != nil {
+				return r
+			}
 		}
 		return nil
 	}
